@@ -186,3 +186,17 @@ Print Assumptions dense_reload_history_independent_pinned.
 Theorem sparse_reload_pinned_refuted : exists W h i, l_last false true W h i <> l_last false true W [] i.
 Proof. exists Lref, [0%nat], 1%nat. exact (proj1 sparse_reload_pinned_refuted_lemma). Qed.
 Print Assumptions sparse_reload_pinned_refuted.
+
+(* the known finding pinned down: of a freshly loaded stand-alone Mesh ONLY the numbering of the private geometry
+   (geometry().vertices(), Mesh::triangle) depends on the history; status, sizes, flags and the triangles relative to
+   the mesh's own vertex list (what Mesh::save writes) do not - for all histories and all well-formed files *)
+From OM Require Import Geom.MeshLocalProofs.
+Theorem mesh_local_view_history_independent : forall W h i,
+  wf_mdesc (nth i W dummy_mdesc) -> m_status (nth i W dummy_mdesc) = 0 ->
+  m_observe_local 0 (fst (m_step m_repaired W (MLoad i) (m_run m_repaired W h mst0)))
+  = m_observe_local 0 (fst (m_step m_repaired W (MLoad i) mst0)).
+Proof. intros; apply mesh_local_history_independent_lemma; auto. Qed.
+Print Assumptions mesh_local_view_history_independent.
+
+Example mesh_local_view_hypotheses_satisfiable : wf_mdesc (nth 1 Mref dummy_mdesc) /\ m_status (nth 1 Mref dummy_mdesc) = 0.
+Proof. split; [repeat constructor | reflexivity]. Qed.
